@@ -213,6 +213,8 @@ def classify(ctx, o, which):
                     x = json.loads(line)
                     if x.get("kind") == "params":
                         rec = x
+        except subprocess.TimeoutExpired:
+            return "timeout", {"timed_out": "harness `c08 corpus` (parameter dump for the branch analysis), 300 s"}
         except Exception:
             rec = None
         finally:
@@ -253,6 +255,8 @@ def refine(ctx, o):
                 x = json.loads(line)
                 if x.get("kind") == "pw":
                     vals[x["tag"].split(":")[1]] = (fh(x["jsi"]), fh(x["singles_s"]), fh(x["singles_i"]))
+    except subprocess.TimeoutExpired:
+        return "timeout"
     except Exception:
         return None
     finally:
@@ -264,6 +268,14 @@ def refine(ctx, o):
     if any(abs(x - y) > 1e-2 * max(x, y) for x, y in zip(a, b)):
         return None
     return a
+
+
+def undecided(ctx, o, rep, why):
+    """an exceedance whose verdict needs a re-evaluation that timed out (machine load): reported like a check error — no
+    failing input is claimed, the check does not pass"""
+    ctx.count("pw:undecided_timeout")
+    ctx.violation("S5", f"exceedance at omega_s={fh(o['ws'])!r}, omega_i={fh(o['wi'])!r} ({o['setup']['family']}) could not be decided: {why}",
+                  {"kind": "pw_undecided_timeout"}, rep, found_input=False)
 
 
 def oracle_pw(ctx, o):
@@ -286,6 +298,9 @@ def oracle_pw(ctx, o):
         # inequality and differ from this observation by more than 5 %, the observation is a quadrature artefact of a far-detuned
         # pair (e.g. walk-off many pump waists long), not a statement about the two closed forms
         fine = refine(ctx, o)
+        if fine == "timeout":
+            undecided(ctx, o, rep, "the re-evaluation with Simpson{2000} / GaussLegendre{300} did not finish within 600 s")
+            return
         if fine is not None and fine[0] <= fine[1] * (1 + REL_SLACK) and fine[0] <= fine[2] * (1 + REL_SLACK) \
                 and any(abs(x - y) > 5e-2 * max(x, y) for x, y in zip((c, ss, si), fine)):
             ctx.count("pw:not_converged:" + s["family"])
@@ -297,6 +312,9 @@ def oracle_pw(ctx, o):
     for which, v in (("signal", ss), ("idler", si)):
         if c > v * (1 + REL_SLACK):
             cause, extra = classify(ctx, o, which)
+            if cause == "timeout":
+                undecided(ctx, o, dict(rep, diagnostic=extra), "the parameter dump for the branch analysis did not finish within 300 s")
+                return
             rep["cause"] = cause
             rep["diagnostic"] = extra
             if o["tag"].startswith("corpus:"):
@@ -626,6 +644,9 @@ def run(ctx):
             oracle(ctx, obs2, a2)
             if real_found(ctx):
                 break
+    fired = sum(v for k, v in ctx.cov["histogram"].items() if k.startswith("pw:not_converged:"))
+    ctx.cov["convergence_guard_fired"] = fired
+    ctx.log(f"S5 convergence guard fired {fired} time(s) in this run")
     ctx.cov["rule"] = ("rate triples: fixed zero/NaN/inf/extreme cases + log-uniform rates over 24 decades, 70% with C <= min(Rs,Ri), 15% with a "
                        "zeroed singles rate; setups: 12 crystal/type/poling families x random length 0.5-20 mm, waists 20-300 um (pump, signal, "
                        "idler independently), bandwidth, collinear (40%) or 0.2-5 deg, degenerate or +-7% non-degenerate, integrator "
@@ -637,6 +658,9 @@ def run(ctx):
         "C <= Rs and C <= Ri => efficiencies in [0,1]": "proved",
         "rates non-negative": "proved (sums of non-negative terms; spectra non-negative for physical setups)",
         "eta, F, R in (0,1], F = R = 1 without walk-off": "proved (Coquelicot RInt; existence of the iterated integral included)",
+        "convergence premise": (f"WEAKER than the letter of the property, which names Simpson{{200}} / GaussLegendre{{40}} as converged: an exceedance observed "
+                                f"with those rules is not reported when Simpson{{2000}} and GaussLegendre{{300}} agree to 1e-2, satisfy the inequality and differ "
+                                f"from the observation by more than 5 % (quadrature artefact at a far-detuned pair); fired {fired} time(s) in this run"),
         "pointwise JSI <= singles": "validated_only (oracle over the property's box); the chain pointwise => rates => efficiencies is proved (C08_pointwise_partial)",
         "no-diffraction ratio = eta F^2 / R to 1e-4": "proved as a LIMIT on the generated coincidence and singles integrands (C08_limit_generated, group I's proofs over Gen/PMIntegrand.v / Gen/PMSingles.v: collinear, round beams, no apodization, ff = 0); the rate 1e-4 at waists >= 1 mm validated_only",
         "finite rates": "validated_only",
@@ -647,4 +671,7 @@ def run(ctx):
     return finish(ctx, assumptions=[
         "the two fibre-coupling integrals are oracles of the model (another property models the integrands); the inequality between them is validated by sampling",
         "x of F(x) is taken as L tan(rho) / sqrt(Wp^2 + (1/Ws^2 + 1/Wi^2)^-1), the overlap radius of the walked-off pump with the two collection modes (the property text leaves x implicit)",
-        "'does not exceed' is checked with a relative slack of 1e-6 for the quadrature"])
+        "'does not exceed' is checked with a relative slack of 1e-6 for the quadrature",
+        f"convergence guard (weaker than the property's letter): exceedances at Simpson{{200}}/GaussLegendre{{40}} are suppressed when Simpson{{2000}} and "
+        f"GaussLegendre{{300}} agree to 1e-2, satisfy the inequality and differ from the observation by > 5 %; it fired {fired} time(s) in this run; "
+        "a time-out of that re-evaluation (600 s) or of the classification dump (300 s) is reported as an undecided case without a failing input"])
